@@ -104,6 +104,8 @@ def check_reflect_tables(ctx, rng, n_draws=3):
                     p = rng.randint(1, 60)
                     args = [p, rng.randint(0, p)]
                 items.append({"fam": fam, "args": args})
+                if fam in S.COLLATABLE:
+                    items.append({"fam": fam, "args": args, "coll": rng.choice(S.COLLATIONS)})
     ans = ctx.drv.ask([{"op": "diff.type", **ty} for ty in items])
     with eng.connect() as conn:
         mctx = S.configure(conn, sa.MetaData())
